@@ -287,6 +287,8 @@ SimpleStmts ==
     {[st |-> "IsAssignation", items |-> lv \o <<op>> \o e \o <<L(";", 1)>>] : lv \in Pick(LValues), op \in Pick(AssignOps), e \in ExprChoice}
     \cup {[st |-> "IsAssignation", items |-> lv \o <<o, L(";", 1)>>] : lv \in Pick(LValues), o \in {L("++", 2), L("--", 2)}}
     \cup {[st |-> "IsFunctionCall", items |-> c \o <<L(";", 1)>>] : c \in Pick(CallTable)}
+    \cup {[st |-> "IsAssignation", items |-> <<L("++", 2), V1, L(";", 1)>>],
+          [st |-> "IsAssignation", items |-> <<L("(", 1), L("*", 1), V3, L(")", 1), L("++", 2), L(";", 1)>>]}
     \cup {[st |-> "IsAssignation", items |-> <<V3, L("[", 1)>> \o e \o <<L("]", 1)>> \o <<op>> \o e2 \o <<L(";", 1)>>]
               : op \in Pick(AssignOps), e \in ExprChoice, e2 \in ExprChoice}
     \cup {[st |-> "IsFunctionCall", items |-> <<F4, L("(", 1), V1, L(", ", 2)>> \o e \o <<L(");", 2)>>] : e \in ExprChoice}
